@@ -1967,7 +1967,11 @@ coap_retransmit(coap_context_t *context, coap_queue_t *node) {
                      (unsigned)(next_delay * 1000 / COAP_TICKS_PER_SECOND));
     }
 
-    if (node->session->con_active) {
+    /*
+     * (a delayed multicast response comes through here as well: it is
+     * Non-confirmable and holds no NSTART slot to give up)
+     */
+    if (node->pdu->type == COAP_MESSAGE_CON && node->session->con_active) {
       node->session->con_active--;
       con_released = 1;
     }
